@@ -23,7 +23,6 @@ type AsyncDataBuf = Arc<RwLock<Vec<(SerializedDataId, PinnedFuture<String>)>>>;
 type ErrorBuf = Arc<RwLock<Vec<(SerializedDataId, ErrorId, Error)>>>;
 type SealedErrors = Arc<RwLock<HashSet<SerializedDataId>>>;
 
-#[derive(Default)]
 /// The shared context that should be used on the server side.
 pub struct SsrSharedContext {
     id: AtomicUsize,
@@ -37,14 +36,17 @@ pub struct SsrSharedContext {
     incomplete: Arc<Mutex<Vec<SerializedDataId>>>,
 }
 
+impl Default for SsrSharedContext {
+    /// The same context as [`SsrSharedContext::new`].
+    fn default() -> Self {
+        Self::new()
+    }
+}
+
 impl SsrSharedContext {
     /// Creates a new shared context for rendering HTML on the server.
     pub fn new() -> Self {
-        Self {
-            is_hydrating: AtomicBool::new(true),
-            non_hydration_id: AtomicUsize::new(usize::MAX),
-            ..Default::default()
-        }
+        Self::with_is_hydrating(true)
     }
 
     /// Creates a new shared context for rendering HTML on the server in "islands" mode.
@@ -52,10 +54,22 @@ impl SsrSharedContext {
     /// This defaults to a mode in which the app is not hydrated, but allows you to opt into
     /// hydration for certain portions using [`SharedContext::set_is_hydrating`].
     pub fn new_islands() -> Self {
+        Self::with_is_hydrating(false)
+    }
+
+    fn with_is_hydrating(is_hydrating: bool) -> Self {
         Self {
-            is_hydrating: AtomicBool::new(false),
+            id: AtomicUsize::new(0),
+            // IDs handed out outside the hydrated parts of the page count down from the top, so
+            // that they never collide with the IDs the client counts up from 0
             non_hydration_id: AtomicUsize::new(usize::MAX),
-            ..Default::default()
+            is_hydrating: AtomicBool::new(is_hydrating),
+            sync_buf: Default::default(),
+            async_buf: Default::default(),
+            errors: Default::default(),
+            sealed_error_boundaries: Default::default(),
+            deferred: Default::default(),
+            incomplete: Default::default(),
         }
     }
 
